@@ -773,6 +773,11 @@ class MayRaise:
             from .srcmodel import dominating_literals
             lits = dominating_literals(fi.node, s) if not isinstance(fi.node, ast.Lambda) else []
             established = norm(s.test) in lits or (isinstance(s.test, ast.Constant) and bool(s.test.value))
+            if not established and isinstance(s.test, ast.Compare) and len(s.test.ops) == 2 and isinstance(s.test.ops[0], ast.LtE) and \
+                    isinstance(s.test.ops[1], ast.Lt) and const_int(s.test.left) is not None and const_int(s.test.comparators[1]) is not None:
+                # `assert lo <= x < hi` (the range guard the canonical form puts in front of a constant-table lookup): the interval of x decides it
+                lo_, hi_ = self.ival(s.test.comparators[0], self.facts(s, ctx), fi)
+                established = const_int(s.test.left) <= lo_ and hi_ < const_int(s.test.comparators[1])
             esc = self.site(ctx, s, "assert", "AssertionError", established, "the asserted condition is established by an enclosing test" if established else
                             f"nothing on the way here establishes `{norm(s.test)[:50]}`")
             if esc:
